@@ -3,9 +3,11 @@ package engine
 import (
 	"strconv"
 
+	"github.com/nyaruka/goflow/envs"
 	"github.com/nyaruka/goflow/flows"
 	"github.com/nyaruka/goflow/flows/definition"
 	"github.com/nyaruka/goflow/flows/events"
+	"github.com/nyaruka/goflow/flows/resumes"
 	"github.com/nyaruka/goflow/flows/runs"
 	"github.com/nyaruka/goflow/zzverif"
 )
@@ -21,6 +23,9 @@ func verifSnapshot(s *session) []string {
 		}
 	}
 	add("uuid", string(s.uuid), "type", string(s.type_), "status", string(s.status))
+	if s.env != nil {
+		add("env", s.env.DateFormat().String(), string(s.env.DefaultCountry()), string(s.env.RedactionPolicy()))
+	}
 	if s.input != nil {
 		add("input", string(s.input.UUID()), s.input.CreatedOn().String())
 	} else {
@@ -88,7 +93,7 @@ func verifHasFailure(sp flows.Sprint) bool {
 // failed), a resume of every type that is rejected with an engine error
 // leaves the persisted state unchanged, produces no events, and a following
 // acceptable resume still works.
-// cover: rejected-by-wait, rejected-not-waiting, accepted, retry-accepted
+// cover: rejected-by-wait, rejected-not-waiting, accepted, retry-accepted, carries-environment, carries-contact
 func VerifC10_Rejected() {
 	counts := []int{1, 1}
 	if zzverif.Thorough() {
@@ -110,7 +115,33 @@ func VerifC10_Rejected() {
 	}
 	before := verifSnapshot(s)
 	wasWaiting := s.status == flows.SessionStatusWaiting
-	sp, err := s.Resume(verifResume(zzverif.Choice("resume-type", 4)))
+	// the resume may carry a refreshed environment and / or a refreshed contact
+	// (as a host sends them along with every resume): a rejected one must not
+	// have installed them
+	var renv envs.Environment
+	var rcontact *flows.Contact
+	carries := zzverif.Choice("resume-carries", 4)
+	if carries&1 == 1 {
+		renv = envs.NewBuilder().WithDateFormat(envs.DateFormatMonthDayYear).WithDefaultCountry("RW").Build()
+		zzverif.Cover("carries-environment")
+	}
+	if carries&2 == 2 {
+		rcontact = s.contact.Clone()
+		rcontact.SetName("Roberta")
+		zzverif.Cover("carries-contact")
+	}
+	var resume flows.Resume
+	switch zzverif.Choice("resume-type", 4) {
+	case 0:
+		resume = resumes.NewMsg(renv, rcontact, verifMsgIn("hi"))
+	case 1:
+		resume = resumes.NewWaitTimeout(renv, rcontact)
+	case 2:
+		resume = resumes.NewRunExpiration(renv, rcontact)
+	default:
+		resume = resumes.NewDial(renv, rcontact, flows.NewDial(flows.DialStatusAnswered, 5))
+	}
+	sp, err := s.Resume(resume)
 	if err == nil {
 		zzverif.Cover("accepted")
 		zzverif.Assert(wasWaiting, "a session that was not waiting accepted a resume")
